@@ -190,13 +190,12 @@ def weighted(n, tier, p):
         nz = sum(1 for x in w if x > 0)
         for size in (None,) + tuple(range(1, n + 1)):
             eff = n if size is None else size
-            if eff > nz:
-                continue  # torch.multinomial without replacement needs enough non-zero weights (outside the domain)
+            few_nonzero = eff > nz  # torch.multinomial then also hands out zero-weight indices (each once)
             for W in (1, 2, 3):
                 case = dict(sampler="weighted", weights=list(w), size=size, W=W)
                 tag = f"|size={'none' if size is None else 'set'}|W={'1' if W == 1 else 'many'}"
                 runs = [("seed", s, e, None) for s in (0, 1, 2) for e in (0, 1)]
-                if n <= 4:
+                if n <= 4 and not few_nonzero:
                     def body(ch):
                         s = WeightedSampler(ds, weights=torch.tensor(w), size=size, seed=0, rank=0, world_size=1)
                         return with_proxy("kappadata.samplers.weighted_sampler", ch, lambda: list(s))
